@@ -85,9 +85,27 @@ func c16ECIES(t *rapid.T, ev *evProp) {
 	if off := clearBlock(msg, ct[pl:]); off >= 0 {
 		violationOrKnown(t, ev, key("plaintext-in-clear"), "plaintext block at offset %d appears in the ciphertext\n%s", off, ctx)
 	}
-	mut := rapid.SampledFrom([]string{"otherkey", "bitflip", "bitflip", "pointflip", "truncate", "extend", "otherhash"}).Draw(t, "mut")
+	mut := rapid.SampledFrom([]string{"otherkey", "bitflip", "bitflip", "pointflip", "truncate", "extend", "otherhash", "neg-ephemeral", "neg-key"}).Draw(t, "mut")
 	mct, mx, mh := append([]byte(nil), ct...), x, h
 	switch mut {
+	case "neg-ephemeral":
+		// the ephemeral point replaced by its negative (another valid point; on Weierstrass curves only
+		// the y coordinate changes): the shared secret becomes -(x*R), body and tag stay
+		R := g.Point()
+		if err := R.UnmarshalBinary(ct[:g.PointLen()]); err != nil {
+			violationOrKnown(t, ev, key("ephemeral"), "the ephemeral point of an honest ciphertext does not decode: %v\n%s", err, ctx)
+			return
+		}
+		copy(mct, mustMarshal(t, g.Point().Neg(R)))
+		if bytes.Equal(mct, ct) {
+			mut = "bitflip" // R = -R cannot happen for an honest ephemeral key; keep the case meaningful
+			mct[len(mct)-1] ^= 1
+		}
+	case "neg-key":
+		mx = g.Scalar().Neg(x)
+		if mx.Equal(x) {
+			mx = g.Scalar().Add(x, g.Scalar().One())
+		}
 	case "otherkey":
 		for {
 			mx = g.Scalar().Pick(ks)
@@ -517,7 +535,7 @@ func c16Anon(t *rapid.T, ev *evProp) {
 	ev.Case(applies, ctx+" mut="+mut, "anon-enc:"+name, "anon-enc-mut:"+mut, fmt.Sprintf("anon-enc-n:%d", n))
 }
 
-const c16Rule = "three generated families. (ECIES) the five ECIES groups (Ed25519, Edwards-vartime prime/full, P-256, QR-512) x hash {nil, SHA-256, SHA-512} x high-entropy messages of length {0,1,15..17,31..33,64,1000,4096,any<=4096}: decrypt(encrypt(m)) = m; no 16-byte plaintext block appears at its offset in the ciphertext; one mutation from {other key, any bit flip, bit flip in the ephemeral point, truncation, extension, other hash} must give an error (or the same plaintext when only an equivalent encoding of the same point was produced), never a panic. " +
+const c16Rule = "three generated families. (ECIES) the five ECIES groups (Ed25519, Edwards-vartime prime/full, P-256, QR-512) x hash {nil, SHA-256, SHA-512} x high-entropy messages of length {0,1,15..17,31..33,64,1000,4096,any<=4096}: decrypt(encrypt(m)) = m; no 16-byte plaintext block appears at its offset in the ciphertext; one mutation from {other key, the negated key, any bit flip, bit flip in the ephemeral point, the negated ephemeral point, truncation, extension, other hash} must give an error (or the same plaintext when only an equivalent encoding of the same point was produced), never a panic. " +
 	"(IBE) every (suite, group assignment) whose identity group is hashable; CCA: messages up to the hash size round-trip and are hidden, longer ones are refused (or hidden), another identity's key / altered U / flipped, truncated or extended V, W are errors; CPA on G1: round trip and no plaintext block in the clear for every accepted message, lengths up to hash size + 48. " +
 	"(anonymous-set) suites Ed25519/P-256/BN256-G1/Edwards-vartime, sets of 1..6 keys, every recipient index, messages 0..600: round trip on a copy, hidden plaintext; wrong key, wrong index, a bit flip anywhere / in another recipient's header slot / own slot / body / MAC, truncation, extension are errors. non-trivial = every case with an applicable negative mutation or a boundary length; distinct = distinct rendered case" +
 	" Added after the sensitivity rounds: IBE-CCA sweep flipping one bit in every byte position of V and W; key pairs are picked directly, made by key.NewKeyPair, or made by ONE key.Pair regenerated per key (earlier keys must stay private*B); plaintexts are passed as canary-tailed slices."
